@@ -55,6 +55,19 @@ def make_files(root, tier):
     prealloc("pre-end", 65536, [(49152, 16384)])
     prealloc("pre-start", 65536, [(0, 8192)])
     prealloc("pre-two", 262144, [(4096, 4096), (131072, 65536)])
+    # extents number 32 and 33 (and 64/65) touch: an unwritten preallocated block followed directly by written data, so the
+    # second request starts exactly where the first one's last extent ended
+    for k in (32, 64):
+        p = os.path.join(root, "page-touch-%d" % k)
+        cells = alternating(k - 1)                      # k-1 isolated data blocks
+        fsmat.write_cells(p, cells + [0, 0, 0, 0], 4096, fid=3)
+        with open(p, "r+b") as f:
+            base = len(cells) * 4096 + 4096
+            os.posix_fallocate(f.fileno(), base, 4096)            # extent k: unwritten
+            f.seek(base + 4096); f.write(b"\x44" * 4096)          # extent k+1: written, touching
+            f.seek(base + 3 * 4096); f.write(b"\x55" * 777)       # a tail that leaves the size off a block multiple
+            f.flush(); os.fsync(f.fileno())
+        out["page-touch-%d" % k] = p
     # many extents, the last one preallocated and touching data up to an odd end of file
     p = os.path.join(root, "alt-40-pretail")
     fsmat.write_cells(p, alternating(40), 4096, fid=3)
